@@ -61,6 +61,10 @@ USES = [
     "[x(+)?]",
     "[!x(-)=]",
     "[x,-y,z?]",
+    "[x(+),y]",
+    "[x,y(-)]",
+    "[-x(+),z]",
+    "[x(-)?,y,z]",
     "[a+b_c@d-e]",
     "[1x]",
 ]
